@@ -244,3 +244,80 @@ Proof.
 Qed.
 Lemma owned_running st : owned st = true -> st <> WaitingForUnpark -> running st = true.
 Proof. by destruct st. Qed.
+
+(* ---------- the general transfer lemma for a runner's obligation under a step of another thread ---------- *)
+Definition unp (s : state) (c : nat) : bool := tokb s c || posb (np (is_unpark c) s).
+Record tview (s s' : state) : Prop := {
+  tv_hsusp : forall e, hsusp s = Some e -> hsusp s' = Some e;
+  tv_awoken : awoken s = true -> awoken s' = true;
+  tv_gq : forall e, running s.(qs) = true -> gq s e = true -> gq s' e = true \/ awoken s' = true;
+  tv_gt : forall c e, gt s c e = true ->
+            gt s' c e = true \/ (is_wfu s'.(qs) = false /\ posb (np (is_unpark c) s') = true /\ (is_wfu s.(qs) = true \/ awoken s' = true));
+  tv_wfu : is_wfu s'.(qs) = true -> is_wfu s.(qs) = true;
+  tv_unp : forall c, is_wfu s.(qs) = false -> unp s c = true -> unp s' c = true;
+  tv_gd : forall e d, gd s e d = true -> gd s' e d = true;
+}.
+Lemma frame_ok_transfer s s' c fr : tview s s' -> (workfr fr = true -> running s.(qs) = true) ->
+  frame_ok s c fr = true -> frame_ok s' c fr = true.
+Proof.
+  intros [H1 H2 H3 H4 H5 H6 H7] H0. unfold unp in H6.
+  destruct fr; cbn; try done; cbn in H0.
+  - (* FDQrequeue *) destruct (susp j); [|done]. apply H7.
+  - destruct (hsusp s) as [e|] eqn:E; [|done]. rewrite (H1 e eq_refl). apply H7.
+  - destruct (hsusp s) as [e|] eqn:E; [|done]. rewrite (H1 e eq_refl). apply H7.
+  - destruct (hsusp s) as [e|] eqn:E; [|done]. rewrite (H1 e eq_refl). apply H7.
+  - destruct (hsusp s) as [e|] eqn:E; [|done]. rewrite (H1 e eq_refl). apply H7.
+  - (* FROpend *) destruct (susp j) as [e|]; [|done]. rewrite !orb_true_iff. intros [Ha|Hg]; [left; by apply H2|].
+    destruct (H4 _ _ Hg) as [?|(_ & _ & [Hw|?])]; [by right| |by left].
+    specialize (H0 eq_refl). destruct (qs s); done.
+  - (* FROcheck *) destruct (susp j) as [e|]; [|done].
+    destruct (is_wfu (qs s')) eqn:Ew'; [|done]. rewrite (H5 eq_refl). intros Hg.
+    destruct (H4 _ _ Hg) as [?|(? & _)]; [done|congruence].
+  - (* FROpark *) destruct (susp j) as [e|]; [|done].
+    destruct (is_wfu (qs s')) eqn:Ew'.
+    + rewrite (H5 eq_refl). intros Hg. destruct (H4 _ _ Hg) as [?|(? & _)]; [done|congruence].
+    + destruct (is_wfu (qs s)) eqn:Ew.
+      * intros Hg. destruct (H4 _ _ Hg) as [->|(_ & -> & _)]; [by rewrite orb_true_r|by rewrite orb_true_r].
+      * rewrite !orb_true_iff. intros [Hu|Hg].
+        -- left. apply orb_true_iff. apply H6; [done|]. by apply orb_true_iff.
+        -- destruct (H4 _ _ Hg) as [?|(_ & ? & _)]; [by right|left; by right].
+  - (* FDRrequeue *) destruct (susp j) as [e|]; [|done]. rewrite !orb_true_iff. intros [Ha|Hg]; [left; by apply H2|].
+    destruct (H3 e (H0 eq_refl) Hg); [by right|by left].
+  - (* FDRpend *) destruct (hsusp s) as [e|] eqn:E; [|done]. rewrite (H1 e eq_refl). rewrite !orb_true_iff.
+    intros [Ha|Hg]; [left; by apply H2|]. destruct (H3 e (H0 eq_refl) Hg); [by right|by left].
+Qed.
+Lemma fsat_work_running s c fr : Inv_own s -> fsat s c fr -> workfr fr = true -> running s.(qs) = true.
+Proof.
+  intros HO (st & Hc & Hin) Hw.
+  assert (cntf workfr st > 0) by (apply cntf_pos; by exists fr).
+  destruct (runner_working s c st HO Hc) as [H1 H2]; [lia|]. by apply owned_running.
+Qed.
+
+Lemma np_same P s s' a old new : stacks s !! a = Some old -> stacks s' = <[a := new]> (stacks s) ->
+  cntf P new = cntf P old -> np P s' = np P s.
+Proof. intros Ha Hs H. pose proof (np_upd P s s' a old new Ha Hs). lia. Qed.
+Lemma np_mono P s s' a old new : stacks s !! a = Some old -> stacks s' = <[a := new]> (stacks s) ->
+  cntf P old <= cntf P new -> np P s <= np P s'.
+Proof. intros Ha Hs H. pose proof (np_upd P s s' a old new Ha Hs). lia. Qed.
+Lemma posb_mono n m : n <= m -> posb n = true -> posb m = true.
+Proof. destruct n, m; cbn; try done; lia. Qed.
+
+Lemma tview_mono s s' :
+  s'.(qs) = s.(qs) -> (forall e, hsusp s = Some e -> hsusp s' = Some e) ->
+  (forall e w, unfreg s e w = true -> unfreg s' e w = true) ->
+  (forall w, np (is_wake w) s <= np (is_wake w) s') -> (forall c, np (is_unpark c) s <= np (is_unpark c) s') ->
+  (forall c, tokb s c = true -> tokb s' c = true) -> (forall d, dw_woken s d = true -> dw_woken s' d = true) ->
+  tview s s'.
+Proof.
+  intros Hq Hh Hu Hw Hp Ht Hd. unfold awoken. split; rewrite ?Hq; try done.
+  - intros e _. unfold gq. rewrite !orb_true_iff. intros [?|?]; left; [left; by apply Hu|right; by eapply posb_mono].
+  - intros c e. unfold gt. rewrite !orb_true_iff. intros [?|?]; left; [left; by apply Hu|right; by eapply posb_mono].
+  - intros c _. unfold unp. rewrite !orb_true_iff. intros [?|?]; [left; by apply Ht|right; by eapply posb_mono].
+  - intros e d. unfold gd. rewrite !orb_true_iff. intros [[?|?]|?]; [left; left; by apply Hu|left; right; by eapply posb_mono|right; by apply Hd].
+Qed.
+Lemma unfreg_evs s s' e w : s'.(evs) = s.(evs) -> unfreg s' e w = unfreg s e w.
+Proof. intros H. unfold unfreg, getev. by rewrite H. Qed.
+Lemma dw_woken_dws s s' d : s'.(dws) = s.(dws) -> dw_woken s' d = dw_woken s d.
+Proof. intros H. unfold dw_woken, getdw. by rewrite H. Qed.
+Lemma tokb_toks s s' c : toks s' = toks s -> tokb s' c = tokb s c.
+Proof. intros H. unfold tokb. by rewrite H. Qed.
